@@ -1,8 +1,12 @@
 #!/usr/bin/env python3
 """Prints a markdown table of /verif/seeded/*: the change, what it needs to manifest, what the check reported."""
-import json, os
+import json, os, re, sys
+# usage: gen_seeded_table.py [regex on the seed name]  (default: all)
+pat = re.compile(sys.argv[1]) if len(sys.argv) > 1 else None
 rows = []
 for d in sorted(os.listdir('/verif/seeded')):
+    if pat and not pat.search(d):
+        continue
     p = f'/verif/seeded/{d}/meta.json'
     if not os.path.exists(p):
         continue
